@@ -87,7 +87,7 @@ impl Stats {
                     h = (h ^ (i as u64 + 1)).wrapping_mul(0x0000_0100_0000_01B3);
                 }
             }
-            if self.sigs.len() < 4_000_000 {
+            if self.sigs.len() < 300_000 {
                 self.sigs.insert(h);
             }
         }
